@@ -25,13 +25,38 @@ theorem addSelf_contrib (s p : Ent) (hv : p.seg.vertical = s.seg.vertical) :
 theorem contrib_zero (sg : Seg) : contrib sg zeroF = (0, 0) := by
   unfold contrib zeroF; split <;> (try split) <;> rfl
 
+/-- 51f64dd `if s.open && !prev.open { s.open = false }`: only the `open_` flag of the receiver can
+change, and only from true to false -/
+theorem closeOn_seg (s p : Ent) :
+    (closeOn s p).seg.clipping = s.seg.clipping ∧ (closeOn s p).seg.vertical = s.seg.vertical ∧
+    (closeOn s p).seg.increasing = s.seg.increasing ∧ (closeOn s p).geom = s.geom ∧
+    (closeOn s p).overlapped = s.overlapped ∧ (closeOn s p).f = s.f := by
+  unfold closeOn; split <;> simp
+
+/-- the receiver stays open exactly when it was open and the absorbed segment is open -/
+theorem closeOn_open (s p : Ent) : (closeOn s p).seg.open_ = (s.seg.open_ && p.seg.open_) := by
+  unfold closeOn
+  cases hs : s.seg.open_ <;> cases hp : p.seg.open_ <;> simp [hs, hp]
+
+/-- `contrib` (hence the crossing sums) does not read `open_` -/
+theorem contrib_closeOn (s p : Ent) (f : Fields) : contrib (closeOn s p).seg f = contrib s.seg f := by
+  obtain ⟨h1, h2, _⟩ := closeOn_seg s p
+  unfold contrib; rw [h1, h2]
+
+/-- `expected` does not read `open_` either: it depends on `clipping` only -/
+theorem expected_congr (a b : Seg) (h : a.clipping = b.clipping) (sc : Int × Int) :
+    expected a sc = expected b sc := by
+  unfold expected; rw [h]
+
 /-- the absorbing loop keeps the crossing sums of the whole chain, given that coincident segments
 agree on being vertical (they have the same endpoints) -/
 theorem absorb_sums (s : Ent) (below : List Ent)
     (hv : ∀ p ∈ below, p.geom = s.geom → p.seg.vertical = s.seg.vertical) :
     sums (pairs ((absorb s below).1 :: ((absorb s below).2.1 ++ (absorb s below).2.2)))
       = sums (pairs (s :: below)) ∧
-    (absorb s below).1.seg = s.seg ∧ (absorb s below).1.geom = s.geom ∧
+    (absorb s below).1.seg.clipping = s.seg.clipping ∧
+    (absorb s below).1.seg.vertical = s.seg.vertical ∧
+    (absorb s below).1.seg.increasing = s.seg.increasing ∧ (absorb s below).1.geom = s.geom ∧
     (absorb s below).1.overlapped = s.overlapped ∧
     (absorb s below).1.f.w = s.f.w ∧ (absorb s below).1.f.ow = s.f.ow := by
   induction below generalizing s with
@@ -44,21 +69,74 @@ theorem absorb_sums (s : Ent) (below : List Ent)
       have hg : p.geom = s.geom := by
         simp only [Bool.or_eq_true, bne_iff_ne, ne_eq, not_or, Decidable.not_not] at hc; exact hc.2
       have hpv := hv p (List.mem_cons_self) hg
-      obtain ⟨sg, sgeo, sov⟩ := addSelf_seg s p
-      have ih' := ih (addSelf s p) (by
+      obtain ⟨cc, cv, ci, cgeo, cov, cf⟩ := closeOn_seg s p
+      obtain ⟨sg, sgeo, sov⟩ := addSelf_seg (closeOn s p) p
+      have ih' := ih (addSelf (closeOn s p) p) (by
         intro q hq hqg
-        rw [sg]
-        exact hv q (List.mem_cons_of_mem _ hq) (by rw [hqg, sgeo]))
-      obtain ⟨e1, e2, e3, e4, e5, e6⟩ := ih'
-      refine ⟨?_, by rw [e2, sg], by rw [e3, sgeo], by rw [e4, sov], ?_, ?_⟩
+        rw [sg, cv]
+        exact hv q (List.mem_cons_of_mem _ hq) (by rw [hqg, sgeo, cgeo]))
+      obtain ⟨e1, e2, e2v, e2i, e3, e4, e5, e6⟩ := ih'
+      refine ⟨?_, by rw [e2, sg, cc], by rw [e2v, sg, cv], by rw [e2i, sg, ci], by rw [e3, sgeo, cgeo],
+        by rw [e4, sov, cov], ?_, ?_⟩
       · simp only [List.cons_append, sums_cons] at e1 ⊢
         simp only [contrib_zero]
-        have := addSelf_contrib s p hpv
-        rw [this] at e1
+        have := addSelf_contrib (closeOn s p) p (by rw [cv]; exact hpv)
+        rw [this, contrib_closeOn, cf] at e1
         simp only [Prod.mk.injEq] at e1 ⊢
         omega
-      · rw [e5]; unfold addSelf; split <;> rfl
-      · rw [e6]; unfold addSelf; split <;> rfl
+      · rw [e5, ← cf]; unfold addSelf; split <;> rfl
+      · rw [e6, ← cf]; unfold addSelf; split <;> rfl
+
+/-- clipping / vertical / increasing of the receiver never change (no hypothesis needed) -/
+theorem absorb_seg_flags (s : Ent) (below : List Ent) :
+    (absorb s below).1.seg.clipping = s.seg.clipping ∧
+    (absorb s below).1.seg.vertical = s.seg.vertical ∧
+    (absorb s below).1.seg.increasing = s.seg.increasing := by
+  induction below generalizing s with
+  | nil => simp [absorb]
+  | cons p rest ih =>
+    simp only [absorb]
+    by_cases hc : (p.overlapped || p.geom != s.geom) = true
+    · rw [if_pos hc]; simp
+    · rw [if_neg hc]
+      obtain ⟨a, b, c⟩ := ih (addSelf (closeOn s p) p)
+      obtain ⟨cc, cv, ci, _⟩ := closeOn_seg s p
+      rw [a, b, c, (addSelf_seg (closeOn s p) p).1]
+      exact ⟨cc, cv, ci⟩
+
+/-- `open_` of the receiver can only go from true to false in the absorbing loop … -/
+theorem absorb_open_mono (s : Ent) (below : List Ent) :
+    (absorb s below).1.seg.open_ = true → s.seg.open_ = true := by
+  induction below generalizing s with
+  | nil => simp [absorb]
+  | cons p rest ih =>
+    simp only [absorb]
+    by_cases hc : (p.overlapped || p.geom != s.geom) = true
+    · rw [if_pos hc]; exact id
+    · rw [if_neg hc]
+      intro h
+      have h1 := ih _ h
+      rw [(addSelf_seg (closeOn s p) p).1, closeOn_open] at h1
+      simp only [Bool.and_eq_true] at h1
+      exact h1.1
+
+/-- … exactly: afterwards the receiver is open iff it was open and every absorbed segment is open
+(the absorbed entries keep their `seg`) -/
+theorem absorb_open_iff (s : Ent) (below : List Ent) :
+    (absorb s below).1.seg.open_ = true ↔
+      s.seg.open_ = true ∧ ∀ e ∈ (absorb s below).2.1, e.seg.open_ = true := by
+  induction below generalizing s with
+  | nil => simp [absorb]
+  | cons p rest ih =>
+    simp only [absorb]
+    by_cases hc : (p.overlapped || p.geom != s.geom) = true
+    · rw [if_pos hc]; simp
+    · rw [if_neg hc]
+      rw [ih, (addSelf_seg (closeOn s p) p).1, closeOn_open]
+      simp only [Bool.and_eq_true, List.mem_cons, forall_eq_or_imp]
+      constructor
+      · rintro ⟨⟨a, b⟩, c⟩; exact ⟨a, b, c⟩
+      · rintro ⟨a, b, c⟩; exact ⟨⟨a, b⟩, c⟩
 
 theorem absorb_zeroed (s : Ent) (below : List Ent) :
     ∀ e ∈ (absorb s below).2.1, e.f = zeroF ∧ e.overlapped = true := by
@@ -150,7 +228,7 @@ theorem merge_below (s : Ent) (below : List Ent) (ht : (merge s below).touched =
       by_cases hc : (p.overlapped || p.geom != s.geom) = true
       · rw [if_pos hc]; exact ⟨[], by simp⟩
       · rw [if_neg hc]
-        obtain ⟨pre, e1, e2⟩ := ih (addSelf s p)
+        obtain ⟨pre, e1, e2⟩ := ih (addSelf (closeOn s p) p)
         exact ⟨p :: pre, by simp only [List.cons_append]; rw [← e1], by simp [e2]⟩
   obtain ⟨h1, h2⟩ := touched_cases s below ht
   exact ⟨(merge_touched s below h1 h2).2.1, absorb_zeroed s below, hsplit s below⟩
@@ -177,5 +255,28 @@ theorem merge_fields_expected (s : Ent) (below : List Ent) (ht : (merge s below)
     simp only [mergedFields, sums_cons, contrib, pv, expected] at pe1 pe2 ⊢
     cases hc1 : (absorb s below).1.seg.clipping <;> cases hc2 : p.seg.clipping <;>
       simp [hc1, hc2] at pe1 pe2 ⊢ <;> omega
+
+/-- 51f64dd at the level of `mergeOverlapping`: afterwards the receiver is open only if it was open
+and every absorbed segment was open (an open segment lying on a closed one disappears in it); when
+segments were absorbed this is an equivalence. The other flags of the receiver never change. -/
+theorem merge_open (s : Ent) (below : List Ent) :
+    ((merge s below).s.seg.open_ = true → s.seg.open_ = true) ∧
+    ((merge s below).touched = true →
+      ((merge s below).s.seg.open_ = true ↔
+        s.seg.open_ = true ∧ ∀ e ∈ (absorb s below).2.1, e.seg.open_ = true)) ∧
+    (merge s below).s.seg.clipping = s.seg.clipping ∧ (merge s below).s.seg.vertical = s.seg.vertical ∧
+    (merge s below).s.seg.increasing = s.seg.increasing := by
+  by_cases h : s.overlapped = true ∨ (absorb s below).2.1.isEmpty = true
+  · obtain ⟨e1, _, e3⟩ := merge_untouched s below h
+    rw [e1, e3]
+    exact ⟨id, by simp, rfl, rfl, rfl⟩
+  · have h1 : ¬ s.overlapped = true := fun x => h (Or.inl x)
+    have h2 : ¬ (absorb s below).2.1.isEmpty = true := fun x => h (Or.inr x)
+    obtain ⟨e1, _, _⟩ := merge_touched s below h1 h2
+    rw [e1]
+    refine ⟨absorb_open_mono s below, fun _ => absorb_open_iff s below, ?_, ?_, ?_⟩
+    · exact (absorb_seg_flags s below).1
+    · exact (absorb_seg_flags s below).2.1
+    · exact (absorb_seg_flags s below).2.2
 
 end Canvas.C01Merge
